@@ -458,7 +458,9 @@ def inDs (s : State) (d : Nat) (g : Nat) : Bool := s.fds[g]? == some d
 def reopen (v : Variant) (s : State) (d : Nat) : State :=
   let mine := sortBy entryLe (s.file.filter (fun e => e.1.1 = d))
   let closedH := s.handles.map (fun hd => if inDs s d hd.home then { hd with closed := true } else hd)
-  let loaded := loadCols v (sortBy entryLe (s.links.filter (fun e => e.1.1 ∈ mine.map (·.2)))) closedH
+  -- frames in name order, the links of each in name order
+  let toLoad := mine.flatMap (fun e => sortBy entryLe (s.links.filter (fun l => l.1.1 = e.2)))
+  let loaded := loadCols v toLoad closedH
   { s with dfs := s.dfs.filter (fun e => e.1.1 ≠ d) ++ mine,
            fname := loadNames mine s.fname,
            cols := s.cols.filter (fun e => !inDs s d e.1.1) ++ loaded.1,
